@@ -4,6 +4,7 @@ From NW Require Import Base.Bytes Model.SchemaTypes Gen.Schema Model.Codec Model
 From NW Require Import Proofs.ServerLib Proofs.ServerRoute Proofs.ServerHandlers Proofs.ServerSteps Proofs.ServerPhases.
 From NW Require Import Proofs.ServerInvBase Proofs.ServerInv Proofs.ServerUniq Proofs.ServerInvCor.
 From NW Require Import Gen.Errors Model.Pool Model.Framing Model.Link Proofs.LinkProofs.
+From NW Require Import Model.LinkConc Proofs.LinkConcProofs.
 
 Theorem C08_gate_fail_closed :
   forall (cfg : scfg) (h : N) (me : nid) (m : msg) (payload : list N) (c : ctx),
@@ -120,3 +121,50 @@ Theorem C08_outcome_accept_only :
     (outcome_of r = MOk -> r = RValid \/ r = REventOk) /\
     (forall a : list N, outcome_of r = MAltered a -> r = RAltered a).
 Proof. exact outcome_of_accept_only. Qed.
+
+Theorem C08_concurrent_requests_transparent :
+  forall (cfg : lcfg) (hb : N) (evs : list lev) (id : N) (call : modcall) (o : moutcome),
+    let s := lc_run cfg hb evs in
+    In (id, call, o) (lc_answered s) ->
+    lc_result cfg s id call = snd (via_link cfg hb id call o).
+Proof. exact lc_concurrent_transparent. Qed.
+
+Theorem C08_concurrent_unanswered_fails :
+  forall (cfg : lcfg) (hb : N) (evs : list lev) (id : N) (call : modcall),
+    let s := lc_run cfg hb evs in
+    (forall (c : modcall) (o : moutcome), ~ In (id, c, o) (lc_answered s)) ->
+    lc_result cfg s id call = RErr.
+Proof. exact lc_unanswered_fails. Qed.
+
+Theorem C08_concurrent_fail_closed :
+  forall (cfg : lcfg) (hb : N) (evs : list lev) (id : N),
+    let s := lc_run cfg hb evs in
+    (forall (f ch : str) (p : list N),
+     In (id, McFbp f ch p) (lc_issued s) ->
+     outcome_of (lc_result cfg s id (McFbp f ch p)) = MOk ->
+     exists o : moutcome,
+       In (id, McFbp f ch p, o) (lc_answered s) /\
+       o <> MErr /\ o <> MInvalid /\ (forall a : list N, o <> MAltered a)) /\
+    (forall (f ch : str) (p a : list N),
+     In (id, McFbp f ch p) (lc_issued s) ->
+     outcome_of (lc_result cfg s id (McFbp f ch p)) = MAltered a ->
+     In (id, McFbp f ch p, MAltered a) (lc_answered s)) /\
+    (forall t u : str,
+     In (id, McAuth t) (lc_issued s) ->
+     outcome_of (lc_result cfg s id (McAuth t)) = MAuthSuccess u ->
+     In (id, McAuth t, MAuthSuccess u) (lc_answered s)).
+Proof. exact lc_fail_closed. Qed.
+
+Theorem C08_concurrent_example :
+  let s := lc_run ConcWitness.cfg 10 ConcWitness.evs in
+    lc_result ConcWitness.cfg s 7 (McFbp ConcWitness.alice ConcWitness.c1 [1; 2; 3]) =
+    RAltered [9; 9] /\
+    lc_result ConcWitness.cfg s 8 (McAuth ConcWitness.tok) = RAuthSuccess ConcWitness.u /\
+    lc_result ConcWitness.cfg s 9 (McFbp ConcWitness.bob ConcWitness.c1 [4]) = RInvalid /\
+    lc_answered s =
+    [(9, McFbp ConcWitness.bob ConcWitness.c1 [4], MInvalid);
+     (7, McFbp ConcWitness.alice ConcWitness.c1 [1; 2; 3], MAltered [9; 9]);
+     (8, McAuth ConcWitness.tok, MAuthSuccess ConcWitness.u)] /\
+    lc_pending s = [] /\
+    lc_closed s = false /\ map frame_id (lc_wire s) = [Some 9; Some 7; Some 8].
+Proof. exact ConcWitness.lc_interleaved_example. Qed.
